@@ -130,7 +130,7 @@ let run_ghost () =
   out_bool ((match find p.Syntax.p_pb with Some m -> m.Analyzer.m_end | None -> None) = r)
 
 (* purely semantic facts (the analyzer model is not involved; the fix mask is read and ignored):
-   wf  no_fn_stmt  reach  falls  fall-through-able cases  getters that can fall off their end *)
+   wf  no_fn_stmt  reach  falls  fall-through-able cases  getters that can fall off their end  fn_stmt_safe *)
 let run_sem () =
   let _ = read_fixes () in
   let p = read_program () in
@@ -139,6 +139,7 @@ let run_sem () =
   out_list out_int (sorted_ns (SemDecide.prog_reach p));
   out_bool (SemDecide.prog_can_fall_off p);
   out_list out_int (sorted_ns (Oracle.sem_fallthrough_cases p));
-  out_list out_int (sorted_ns (Oracle.sem_falling_getters p))
+  out_list out_int (sorted_ns (Oracle.sem_falling_getters p));
+  out_bool (Syntax.fn_stmt_safeb p)
 
 let () = main [("analyze", run_analyze); ("oracle", run_oracle); ("ghost", run_ghost); ("sem", run_sem)]
